@@ -15,6 +15,8 @@ PREFACE_HEAD = b"PRI * HTTP/2.0\r\n\r\n"
 
 
 def run(ctx: Ctx) -> None:
+    if getattr(ctx, "_depth", 0) >= 2:
+        return  # alias of an alias: not followed (breaks import cycles between rule modules)
     repo = ctx.repo
     ctx.rule("C13.R1", "ProtocolWrapper picks H2Protocol iff ALPN == 'h2', else H11Protocol, and hands both the same nine collaborators", floor=3)
     ctx.rule("C13.R2", "h11 Request arm: _check_protocol before _create_stream; h2c upgrade only for `upgrade: h2c` without a body, announced with 101 + connection: upgrade/upgrade: h2c, raising with the trailing bytes and the request; prior knowledge recognised by PRI/*/2.0 raising with the consumed preface line + trailing bytes", floor=6)
